@@ -362,7 +362,7 @@ func genC16(t *rapid.T, tier string) (*World, any) {
 		p.CtlArgv = argv("942110")
 	}
 	sched := drawPlan(t, "plan", strings.Contains(cmd, "all") && p.Mode != "loud")
-	p.Plan.MapAll, p.Plan.MapDefault, p.Plan.MapOverrides = sched.MapAll, sched.MapDefault, sched.MapOverrides
+	p.Plan.MapAll, p.Plan.MapDefault, p.Plan.MapOverrides, p.Plan.StdinChunks = sched.MapAll, sched.MapDefault, sched.MapOverrides, sched.StdinChunks
 	p.Control = control
 	return w, p
 }
